@@ -1,13 +1,110 @@
-"""C01 bounded part: run-time contract on the records / candidates of the real program (see bcheck.records)."""
+"""C01 bounded part: (a) run-time contract on the records / candidates of the real program (see bcheck.records);
+(b) "every candidate alignment the aligner builds from any list of seed peaks": the real Aligner.align on generated label data with
+2-6 nearby seed peaks (the C15 generators), the candidate row judged by the C01 clauses; failures are attributed to the known
+conflict-resolution findings only if the conflict monitor saw that mechanism in that call."""
 from bcheck import pipe_driver as pd
+from bcheck.common import pmap, result, merge, time_limit, CaseTimeout
+
+ALIGN = 'src/alignment/aligner.py::Aligner.align'
+
+
+def run_aligner_case(case):
+    from bcheck import conflict_monitor as cm
+    from bcheck import records as R
+    from src.alignment.aligner import Aligner, AlignerEngine
+    from src.alignment.alignment_position_scorer import AlignmentPositionScorer
+    from src.alignment.segments_factory import AlignmentSegmentsFactory
+    from src.alignment.segment_chainer import SegmentChainer, SequentialityScorer
+    from src.alignment.segment_with_resolved_conflicts import AlignmentSegmentConflictResolver
+    from src.correlation.optical_map import OpticalMap
+    from src.correlation.peak import Peak
+    pd.install_context()
+    cm.reset()
+    cm.set_context(('align', 5))
+    ref = OpticalMap(1, case['ref'][-1] + 1000, list(case['ref']))
+    qpos = case['query']
+    if case['reverse']:
+        qpos = sorted(qpos[-1] - p for p in qpos)
+    query = OpticalMap(5, qpos[-1] + 1, list(qpos))
+    aligner = Aligner(AlignmentPositionScorer(1000, 1., -250), AlignmentSegmentsFactory(1000, 1200), AlignerEngine(case['maxDistance']),
+                      AlignmentSegmentConflictResolver(SegmentChainer(SequentialityScorer(1., 0))))
+    row = aligner.align(ref, query, [Peak(pk, 10. + i) for i, pk in enumerate(case['peaks'])], case['reverse'])
+    pairs = [(p.reference.siteId, p.query.siteId) for p in row.alignedPairs]
+    if not pairs:
+        return [], 0, pairs
+    bad = R.c01_pairs(pairs, '-' if case['reverse'] else '+', len(case['ref']), len(qpos))
+    nseg = len([s for s in row.segments if s.positions])
+    if not bad:
+        # label numbers name the labels whose coordinates were paired
+        for p in row.alignedPairs:
+            qc = query.positions[p.query.siteId - 1]
+            qc = (query.length - 1 - qc) if case['reverse'] else qc
+            if ref.positions[p.reference.siteId - 1] != p.reference.position or qc != p.query.position:
+                return [('label_numbers_name_the_labels_paired', None)], nseg, pairs
+        return [], nseg, pairs
+    mechs = R.conflict_mechanisms(cm.events(), 5)
+    known = [m for m in mechs if m[1]]
+    unknown = [m for m in mechs if m[1] is None]
+    if known and not unknown and all(b != 'labels_exist_in_the_named_maps' for b in bad):
+        return [('one_to_one_collinear', known[0][1])], nseg, pairs
+    return [(bad[0], None)], nseg, pairs
+
+
+def aligner_chunk(seeds):
+    from bcheck.c15 import build_case
+    out, nt = [], 0
+    for s in seeds:
+        case = build_case(s)
+        try:
+            with time_limit(20):
+                bad, nseg, pairs = run_aligner_case(case)
+        except CaseTimeout:
+            bad, nseg, pairs = [('terminates', None)], 0, []
+        except Exception as e:
+            bad, nseg, pairs = [(f'no_exception:{type(e).__name__}:{e}'[:120], None)], 0, []
+        nt += 1 if nseg >= 2 else 0
+        if bad:
+            out.append((case, bad, pairs[:60]))
+    return len(seeds), nt, out[:20]
 
 
 def bounded(repo, tier, seed):
     n = 56 if tier == 'quick' else 1500
-    return pd.run(repo, tier, seed, ['C01'], MODES if tier != 'quick' else (lambda i: [MODESQ[i % len(MODESQ)]]), n, params_list=PARAMS)
+    r1 = pd.run(repo, tier, seed, ['C01'], MODES if tier != 'quick' else (lambda i: [MODESQ[i % len(MODESQ)]]), n, params_list=PARAMS)
+    na = 60000 if tier == 'quick' else 1500000
+    seeds = [seed * 1000003 + i for i in range(na)]
+    chunks = [seeds[i:i + 150] for i in range(0, len(seeds), 150)]
+    res = pmap(aligner_chunk, chunks, repo)
+    viol, known = {}, {}
+    for r in res:
+        for case, bad, pairs in r[2]:
+            for clause, mech in bad:
+                key = f"{ALIGN}::monitor::C01::{clause}" + (f"::{mech}" if mech else '')
+                tgt = known if mech else viol
+                if key not in tgt or len(case['query']) < len(tgt[key]['input']['aligner_case']['query']):
+                    tgt[key] = dict(key=key, blame=ALIGN, input=dict(aligner_case=case), observed=dict(pairs=pairs, violated=clause), required='C01 statement')
+    from bcheck.c15 import build_case
+    r2 = result(sum(r[0] for r in res), sum(r[1] for r in res),
+                "candidate rows of the real Aligner.align (engine + scorer + segment factory + chainer + conflict resolver) on generated label data with 2-6 "
+                "seed peaks on neighbouring diagonals (stretched, indel, repeat-expansion, noisy molecules; spread shifts), both strands, maxDistance "
+                "500-2000: labels exist, each label at most once, strictly ascending reference order, query order by strand, label numbers name the paired "
+                "coordinates; non-trivial = the candidate has >= 2 segments",
+                [build_case(seeds[0])], list(viol.values())[:5] + list(known.values())[:3], exhaustive=False, bounds=f"{na} generated cases")
+    return merge([r1, r2])
 
 
-replay = pd.replay
+def replay(repo, rp):
+    i = rp['input']
+    if 'aligner_case' in i:
+        from bcheck.common import use_repo
+        use_repo(repo)
+        bad, nseg, pairs = run_aligner_case(i['aligner_case'])
+        want = rp.get('key', '')
+        hit = [b for b in bad if f"{ALIGN}::monitor::C01::{b[0]}" + (f"::{b[1]}" if b[1] else '') == want]
+        return (not hit), dict(violated=bad, pairs=pairs[:40])
+    return pd.replay(repo, rp)
+
+
 MODES = ['best', 'separate', 'joined', 'all']
 MODESQ = ['best', 'all', 'joined', 'best']
 PARAMS = [{}, {'d': 1000}, {'p': 5}, {'d': 2000, 'ms': 500}]
